@@ -142,7 +142,7 @@ func (cs *CacheScen) setup(l *tledger) (CacheLike, CState) {
 		st.Now += 3
 		c.DeleteExpired()
 		if c.Count() != 0 || len(c.Physical()) != 0 {
-			panic("cache prologue: the warm-up cleanup pass left entries behind")
+			panic("SEQ: sequential prologue: a cleanup pass on a cache whose two entries had expired left entries behind")
 		}
 		l.take(sched.MaxThreads)
 	}
@@ -177,7 +177,10 @@ func (cs *CacheScen) setup(l *tledger) (CacheLike, CState) {
 		for j := 0; j < nfill; j++ {
 			c.SetForever(fillTarget+j, 1000+j)
 		}
-		thr := int(float64(32*slots) * 0.75)
+		thr := policyOf(CMapOfInt).grow
+		if slots == 3 {
+			thr = policyOf(CMap).grow
+		}
 		for j := 0; c.Count() <= thr; j++ {
 			c.SetForever(fillSpread+j, 2000+j)
 		}
@@ -227,7 +230,31 @@ func (cs *CacheScen) Scenario() *Scenario {
 	var lc *linChecker
 	sc.New = func() *Instance {
 		l := &tledger{}
-		c, st0 := cs.setup(l)
+		var c CacheLike
+		var st0 CState
+		problem, infra := "", false
+		func() {
+			defer func() {
+				if r := recover(); r != nil {
+					// a sequential prologue that already misbehaves is a violation (of every class: the scenario
+					// cannot say anything else); a table shape that cannot be produced is not a verdict
+					if msg := fmt.Sprint(r); strings.HasPrefix(msg, "SEQ: ") {
+						problem = strings.TrimPrefix(msg, "SEQ: ")
+					} else {
+						problem, infra = fmt.Sprintf("scenario cannot be armed: %v", r), true
+					}
+				}
+			}()
+			c, st0 = cs.setup(l)
+		}()
+		if problem != "" {
+			return &Instance{Bodies: []sched.Body{func() {}}, Finish: func(*sched.Result) (string, []OViol) {
+				if infra {
+					panic("INFRASTRUCTURE: " + problem + " @ " + name)
+				}
+				return "prologue", []OViol{{OLin | OCount | OLedger | ORange | OTerm | OMon, problem}}
+			}}
+		}
 		if lc == nil {
 			lc = newLinChecker(cacheLinModel(st0, !cs.CheckFn, cs.Classes&OLedger == 0))
 		}
